@@ -10,7 +10,9 @@ import SioVerif.Lemmas.SioCodec
   partition of the packet stream into non-empty payloads, attachments as base64; other Engine.IO
   packets interleaved anywhere) → Engine.IO decode (C11) → reassembly (C09/C10) → dispatch by
   namespace (C05) and event name → handler invocation.
-  This file states the composition for the carriage and the reassembly:
+  This file proves the composition of the carriage with the reassembly (`end_to_end_polling`, `end_to_end_websocket`): the sender's
+  blocks, carried as any partition into long-polling payloads / as WebSocket messages, come out as exactly one packet per block, in
+  order; the pieces are:
   * `carriage_websocket`, `carriage_polling` : the stream of frames that leaves the send queue is
      the stream of frames that reaches the decoder, for every partition into poll responses / POSTs;
   * `control_packets_invisible` : PING/PONG/NOOP/… interleaved anywhere never reach the decoder;
@@ -157,6 +159,58 @@ theorem blocks_finish_in_order (J : Oracle) (maxAtt : Nat) (blocks : List (List 
     simp only [List.flatten_cons, feed_append, block_finishes_one J maxAtt b (h b (by simp)),
       ih (fun x hx => h x (by simp [hx])), List.length_cons]
     simp only [Prod.mk.injEq, true_and]; omega
+
+/-! ### composition: long-polling carriage followed by reassembly -/
+
+/-- what the receiving Socket.IO decoder is fed when the sender's frames travel as the given long-polling payloads: each payload is
+    encoded, decoded, and the data of its packets handed on (a payload that did not decode would hand on nothing) -/
+def receivedOverPolling (batches : List (List (Bool × Bytes))) : List Bytes :=
+  batches.flatMap fun b =>
+    match decodePayloads P (encodePayloads P (b.map framePacket)) with
+    | .ok ps => ps.map (·.data)
+    | _ => []
+
+theorem receivedOverPolling_eq (batches : List (List (Bool × Bytes))) (hne : ∀ b ∈ batches, b ≠ [])
+    (hclean : ∀ b ∈ batches, ∀ f ∈ b, f.1 = false → P.delim ∉ f.2) :
+    receivedOverPolling batches = batches.flatten.map (·.2) := by
+  induction batches with
+  | nil => rfl
+  | cons b bs ih =>
+    have hb := carriage_polling (b :: bs) hne hclean b (by simp)
+    have ih' := ih (fun x hx => hne x (by simp [hx])) (fun x hx => hclean x (by simp [hx]))
+    simp only [receivedOverPolling, List.flatMap_cons, hb, List.flatten_cons, List.map_append] at ih' ⊢
+    rw [ih']
+    simp [framePacket, List.map_map, Function.comp_def]
+
+/-- end to end over long-polling: the sender's blocks (header frame + the attachments it announces), cut into payloads in any way
+    whatsoever (text frames free of the record separator, as JSON is), are decoded and reassembled into exactly one packet per block,
+    in order, leaving the decoder idle - for every oracle of the JSON library, every block list, every partition -/
+theorem end_to_end_polling (J : Sio.Oracle) (maxAtt : Nat) (blocks : List (List Bytes)) (batches : List (List (Bool × Bytes)))
+    (hwf : ∀ b ∈ blocks, WfBlock J maxAtt b)
+    (hpart : batches.flatten.map (·.2) = blocks.flatten)
+    (hne : ∀ b ∈ batches, b ≠ [])
+    (hclean : ∀ b ∈ batches, ∀ f ∈ b, f.1 = false → P.delim ∉ f.2) :
+    feed J maxAtt none (receivedOverPolling batches) = (none, blocks.length) := by
+  rw [receivedOverPolling_eq batches hne hclean, hpart]
+  exact blocks_finish_in_order J maxAtt blocks hwf
+
+theorem okData_map (frames : List (Bool × Bytes)) :
+    (frames.map fun f => (Outcome.ok (framePacket f) : Outcome Err Packet)).filterMap
+      (fun o => match o with | .ok p => some p.data | _ => none) = frames.map (·.2) := by
+  induction frames with
+  | nil => rfl
+  | cons f fs ih =>
+    simp only [List.map_cons, List.filterMap_cons]
+    rw [ih]
+    rfl
+
+/-- and over WebSocket (one message per frame) -/
+theorem end_to_end_websocket (J : Sio.Oracle) (maxAtt : Nat) (blocks : List (List Bytes)) (frames : List (Bool × Bytes))
+    (hwf : ∀ b ∈ blocks, WfBlock J maxAtt b) (hfr : frames.map (·.2) = blocks.flatten) :
+    feed J maxAtt none ((frames.map fun f => decode P f.1 (encode P true (framePacket f))).filterMap
+      (fun o => match o with | .ok p => some p.data | _ => none)) = (none, blocks.length) := by
+  rw [carriage_websocket, okData_map, hfr]
+  exact blocks_finish_in_order J maxAtt blocks hwf
 
 /-! non-vacuity: BINARY_EVENT with one attachment followed by a text EVENT -/
 example : feed (fun t => if t = [34, 97, 34] then some [[97]] else none) 0 none
